@@ -23,6 +23,11 @@ from vf.util import call, environ, short, strip_prov
 ADDR = re.compile(r"0x[0-9a-fA-F]+")
 
 
+
+def _kind_order(kind):
+    """step kinds in a signature: the ones a known finding is keyed by come first, so the 120 character cut keeps them"""
+    return (0 if kind.startswith("print_shtab") else 1, kind)
+
 def make_parser(variant, eoe, workdir):
     p = ArgumentParser(exit_on_error=eoe, prog="app", env_prefix="APP", default_config_files=[os.path.join(workdir, "defaults.yaml")] if variant["dcf"] else None)
     p.add_argument("--cfg", action=ActionConfigFile)
@@ -330,7 +335,7 @@ def case(ctx, i, rng):
             # first diverging step: signature = (kind of this step, kinds of the previous steps that could have set state)
             before = [step_kind(s, call(lambda: None)) if False else s[0] for s in hist[:k]]
             failing_before = sorted({kd for kd in ctx._c09_kinds[-k:]} if k else [])
-            sig = f"diverges-at/{kind}/after/" + "+".join(sorted(set(ctx._c09_kinds[-k:])) if k else ["nothing"])[:120]
+            sig = f"diverges-at/{kind}/after/" + "+".join(sorted(set(ctx._c09_kinds[-k:]), key=_kind_order) if k else ["nothing"])[:120]
             ctx.violation("history", sig, dict(variant=variant, exit_on_error=eoe, history=[short(s, 300) for s in hist[: k + 1]], step=k, reused_parser=short(a, 700), fresh_parser=short(b, 700)))
             break
         # the same step in a process that never made another call: state kept outside the parser (module globals,
@@ -341,7 +346,7 @@ def case(ctx, i, rng):
             ctx.inconclusive(f"pristine reference failed: {short(ref, 300)}")
             break
         if strip_shtab(tuple(ref)) != strip_shtab(b):
-            sig = f"process-state-diverges-at/{kind}/after/" + ("+".join(sorted(set(ctx._c09_kinds[-k:]))) if k else "earlier-cases-only")[:120]
+            sig = f"process-state-diverges-at/{kind}/after/" + ("+".join(sorted(set(ctx._c09_kinds[-k:]), key=_kind_order)) if k else "earlier-cases-only")[:120]
             ctx.violation("history", sig, dict(variant=variant, exit_on_error=eoe, history=[short(s, 300) for s in hist[: k + 1]], step=k, fresh_parser_after_history=short(b, 700), fresh_parser_in_pristine_process=short(ref, 700)))
             break
         ctx._c09_kinds.append(kind)
